@@ -164,6 +164,43 @@ def getBH_level1(
 def getBH_level2(
     sources, observers, *, field, sumup, squeeze, pixel_agg, output, in_out, **kwargs
 ) -> np.ndarray:
+    """Compute field for given sources and observers. Object paths that are tiled up
+    for the computation are restored also when the computation fails.
+    """
+    # pylint: disable=protected-access
+    tiled = []  # (object, original path length) of objects with temporarily tiled paths
+    try:
+        return _getBH_level2(
+            sources,
+            observers,
+            tiled,
+            field=field,
+            sumup=sumup,
+            squeeze=squeeze,
+            pixel_agg=pixel_agg,
+            output=output,
+            in_out=in_out,
+            **kwargs,
+        )
+    finally:
+        for obj, m0 in tiled:
+            obj._position = obj._position[:m0]
+            obj._orientation = obj._orientation[:m0]
+
+
+def _getBH_level2(
+    sources,
+    observers,
+    tiled,
+    *,
+    field,
+    sumup,
+    squeeze,
+    pixel_agg,
+    output,
+    in_out,
+    **kwargs,
+) -> np.ndarray:
     """Compute field for given sources and observers.
     Info:
     -----
@@ -281,6 +318,7 @@ def getBH_level2(
     mask_reset = [max_path_len != pl for pl in path_lengths]
     reset_obj = [obj for obj, mask in zip(obj_list, mask_reset) if mask]
     reset_obj_m0 = [pl for pl, mask in zip(path_lengths, mask_reset) if mask]
+    tiled.extend(zip(reset_obj, reset_obj_m0))
 
     if max_path_len > 1:
         for obj, m0 in zip(reset_obj, reset_obj_m0):
